@@ -782,7 +782,7 @@ func verifTCPMuxDomainListen(pxy *TCPMuxProxy, domain string) bool {
 }
 
 //verif:contract (*~/server/proxy.TCPMuxProxy).httpConnectRun
-//verif:props C07 C06
+//verif:props C07 C06 C01
 //verif:kinds post,loop,pre
 func verif_TCPMuxProxy_httpConnectRun(pxy *TCPMuxProxy) {
 	sub := pxy.cfg.SubDomain
